@@ -27,6 +27,7 @@ package client
 
 //@ func (*rmBranchCommitProcessor).Process
 //@   prop C15
+//@   modifies ghost.all, heap.all
 //@   requires isT(rpcMessage.Body, message.BranchCommitRequest)
 //@   let req := rpcMessage.Body.(message.BranchCommitRequest)
 //@   requires ghost.sent == 0 && ghost.rmcalls == 0
@@ -42,6 +43,7 @@ package client
 
 //@ func (*rmBranchRollbackProcessor).Process
 //@   prop C15
+//@   modifies ghost.all, heap.all
 //@   requires isT(rpcMessage.Body, message.BranchRollbackRequest)
 //@   let req := rpcMessage.Body.(message.BranchRollbackRequest)
 //@   requires ghost.sent == 0 && ghost.rmcalls == 0
@@ -58,6 +60,7 @@ package client
 // C14: a response completes only the future registered under its own id and removes only that entry.
 //@ func (*clientOnResponseProcessor).Process
 //@   prop C14
+//@   modifies heap.all
 //@   let cl := getty.gettyRemotingClient
 //@   requires cl != nil && cl.gettyRemoting != nil && cl.gettyRemoting.futures != nil && cl.gettyRemoting.mergeMsgMap != nil
 //@   let k := some(int32, "k")
